@@ -633,17 +633,25 @@ func (n *node) exec(line string) string {
 	}
 	if ws[0] == "cadd" && len(ws) == 5 {
 		// one of the two calls of the preceding conc, reported in the sequential order that explains them
+		rej := func(r string) string {
+			// which rejection the loser gets depends on how far the winner had got (the duplicate-id
+			// check runs before the lock): only accepted / rejected is compared
+			if r == "ok" || strings.HasPrefix(r, "PANIC") {
+				return r
+			}
+			return "rejected"
+		}
 		if len(n.pending) >= 2 && n.pending[0] == line {
 			r := n.pending[1]
 			n.pending = n.pending[2:]
-			return r
+			return rej(r)
 		}
 		g, ok := parseGroup4(ws[1], ws[2], ws[3], ws[4])
 		if !ok {
 			return "bad-op"
 		}
 		n.everIds[string(g.Id)] = g.Id
-		return guard(func() string { return addErr(core.GetGroupChain().AddGroup(g)) })
+		return rej(guard(func() string { return addErr(core.GetGroupChain().AddGroup(g)) }))
 	}
 	if ws[0] == "restart" && len(ws) == 1 {
 		if preCycle() {
@@ -806,6 +814,9 @@ func (g *gen) conc() {
 	g.create++
 	i := r.Intn(len(g.pool))
 	j := (i + 1 + r.Intn(len(g.pool)-1)) % len(g.pool)
+	if r.Chance(1, 4) {
+		j = i // the very same group delivered twice (consensus broadcast and group sync)
+	}
 	parent := g.listed[r.Intn(len(g.listed))]
 	line := fmt.Sprintf("conc %s %s %s %s %d", g.pool[i], g.pool[j], g.last(), parent, g.create)
 	g.n.exec(line)
@@ -1358,12 +1369,12 @@ func main() {
 		// ids outside the domain of the property (index-key ids, empty ids, unlinked genesis)
 		// are not generated here: the oracle states C19 for well-formed histories only.
 		inDomain = true
+		nEx = g.exhaustive(depth, true) // shortest histories first: they make the replay of a finding
+		g.bootCrashes()
 		for i := 0; i < nSeq; i++ {
 			g.randomSequence(maxOps, i%3 != 0)
 		}
 		g.concStress(hx.ArgInt(a, "conc", 40))
-		g.bootCrashes()
-		nEx = g.exhaustive(depth, true)
 	} else {
 		if part == 0 {
 			for _, f := range corpusFiles() {
@@ -1375,14 +1386,14 @@ func main() {
 			g.malformed()
 		}
 		inDomain = true
+		nEx = g.exhaustive(depth, true)
+		if part == 0 {
+			g.bootCrashes()
+		}
 		for i := 0; i < nSeq; i++ {
 			g.randomSequence(maxOps, i%3 != 0)
 		}
 		g.concStress(hx.ArgInt(a, "conc", 40))
-		if part == 0 {
-			g.bootCrashes()
-		}
-		nEx = g.exhaustive(depth, true)
 	}
 
 	if mode == "search" {
